@@ -126,10 +126,18 @@ func (e *cmpEval) eval(fn *ssa.Function, bind map[ssa.Value]types.Type, out cmpO
 			}
 			e.result(t.Results[0], bind, out, depth)
 		case *ssa.If:
-			if ex, ok := t.Cond.(*ssa.Extract); ok && ex.Index == 1 {
+			cond, neg := t.Cond, false
+			for {
+				u, ok := cond.(*ssa.UnOp)
+				if !ok || u.Op != token.NOT {
+					break
+				}
+				cond, neg = u.X, !neg // `switch { case !ok: }` branches on the negation as a value
+			}
+			if ex, ok := cond.(*ssa.Extract); ok && ex.Index == 1 {
 				if ta, ok := ex.Tuple.(*ssa.TypeAssert); ok {
 					if v, decided := assertOK(ta); decided {
-						if v {
+						if v != neg {
 							walk(b.Succs[0])
 						} else {
 							walk(b.Succs[1])
@@ -369,24 +377,24 @@ func ruleSetOrder(c *Ctx, r *Report) {
 	var lessOK, dedupOK bool
 	for _, f := range withAnon(set) {
 		eachInstr(f, func(in ssa.Instruction) {
-			bo, ok := in.(*ssa.BinOp)
+			bv, ok := in.(*ssa.BinOp)
 			if !ok {
 				return
 			}
-			call, ok := bo.X.(*ssa.Call)
+			x, op, k, isCmp := cmpConst(bv)
+			if !isCmp {
+				return
+			}
+			call, ok := x.(*ssa.Call)
 			if !ok || !call.Call.IsInvoke() || call.Call.Method.Name() != "Compare" {
 				return
 			}
-			k, isK := constInt(bo.Y)
-			if !isK {
-				return
-			}
 			switch {
-			case f != set && ((bo.Op == token.EQL && k == -1) || (bo.Op == token.LSS && k == 0)):
+			case f != set && ((op == token.EQL && k == -1) || (op == token.LSS && k == 0)):
 				lessOK = true
-			case f == set && bo.Op == token.EQL && k == 0:
+			case f == set && op == token.EQL && k == 0:
 				dedupOK = true
-			case f == set && bo.Op == token.NEQ && k == 0:
+			case f == set && op == token.NEQ && k == 0:
 				dedupOK = true
 			}
 		})
@@ -505,12 +513,12 @@ func ruleCompoundOrder(c *Ctx, r *Report) {
 	// (2) arguments are compared only when the names are equal, left to right
 	nameEq := false
 	for f := range c.factsAt(argCmp.Block()) {
-		bo, ok := f.cond.(*ssa.BinOp)
+		x, op, k, ok := cmpConst(f.cond)
 		if !ok {
 			continue
 		}
-		if bo.X == ssa.Value(functorCmp) {
-			if k, isK := constInt(bo.Y); isK && k == 0 && ((bo.Op == token.NEQ && !f.pol) || (bo.Op == token.EQL && f.pol)) {
+		if x == ssa.Value(functorCmp) {
+			if k == 0 && ((op == token.NEQ && !f.pol) || (op == token.EQL && f.pol)) {
 				nameEq = true
 			}
 		}
@@ -718,4 +726,83 @@ func ruleCompareRange(c *Ctx, r *Report) {
 		})
 	}
 	r.analysed(rule, fmt.Sprintf("%d family members, %d exact consumers", len(fam), exact))
+}
+
+// ---------------------------------------------------------------------------
+// R-COMPARE-ABSTRACT (C08; added after seed C08e): the standard order "does not depend on how a list or string
+// was built".  The Compare method of a compound representation looks at the OTHER operand through the Compound
+// interface (or hands both to CompareCompound).  A fast path may recognise the receiver's own representation
+// on the other side (two texts of the same kind compare like their strings); an assertion of the other operand
+// to a DIFFERENT concrete representation compares two encodings element by element without knowing that their
+// elements are of different kinds (a code list against a character list is Integer against Atom at the first
+// element, whatever the texts).  Conservative: a correct cross-representation fast path would be reported too;
+// this checker cannot tell one from the other.
+func ruleCompareAbstract(c *Ctx, r *Report) {
+	const rule = "R-COMPARE-ABSTRACT"
+	desc := "Compare of a compound representation asserts the other operand to no other concrete representation than its own"
+	compoundT := c.engType("Compound")
+	if compoundT == nil {
+		r.undecided(rule, "anchor:Compound", "-", "locate the Compound interface", "not found")
+		return
+	}
+	ci := compoundT.Underlying().(*types.Interface)
+	n := 0
+	for _, X := range c.termImplementers() {
+		if !types.Implements(X, ci) {
+			continue
+		}
+		sel := c.Prog.MethodSets.MethodSet(X).Lookup(c.Engine.Pkg, "Compare")
+		if sel == nil {
+			continue
+		}
+		obj, ok := sel.Obj().(*types.Func)
+		if !ok {
+			continue
+		}
+		fn := c.Prog.FuncValue(obj)
+		if fn == nil || fn.Blocks == nil || funcPkg(fn) != c.Engine {
+			continue
+		}
+		recvT := fn.Signature.Recv().Type()
+		n++
+		key := fname(fn) + "/other-operand"
+		var bad *ssa.TypeAssert
+		eachInstr(fn, func(in ssa.Instruction) {
+			ta, ok := in.(*ssa.TypeAssert)
+			if !ok || bad != nil {
+				return
+			}
+			if _, isIface := ta.AssertedType.Underlying().(*types.Interface); isIface {
+				return
+			}
+			if !types.Implements(ta.AssertedType, ci) || types.Identical(ta.AssertedType, recvT) || types.Identical(deref(ta.AssertedType), deref(recvT)) {
+				return
+			}
+			// the receiver re-resolved (w := env.Resolve(v); w.(T)) is not the other operand
+			fromRecv := true
+			for _, l := range c.originSet(ta.X) {
+				if call, _ := callOfValue(l); call != nil && len(call.Call.Args) == 2 {
+					l = call.Call.Args[1] // Env.Resolve(t)
+					if mi, ok := l.(*ssa.MakeInterface); ok {
+						l = mi.X
+					}
+				}
+				if len(fn.Params) == 0 || l != ssa.Value(fn.Params[0]) {
+					fromRecv = false
+				}
+			}
+			if fromRecv {
+				return
+			}
+			bad = ta
+		})
+		if bad == nil {
+			r.ok(rule, key, c.Pos(fn.Pos()), desc, "the other operand is used through interfaces (or as the receiver's own representation) only", true)
+		} else {
+			r.bad(rule, key, c.at(bad), desc, "the other operand is asserted to "+types.TypeString(bad.AssertedType, func(p *types.Package) string { return p.Name() })+": two different encodings of a list are compared without going through their elements' own order (Integer before Atom), so the outcome depends on how each list was built")
+		}
+	}
+	if n == 0 {
+		r.undecided(rule, "scan/Compare", "-", desc, "no Compare method of a compound representation found")
+	}
 }
